@@ -202,6 +202,64 @@ def handover(ctx, cases):
             rs2.close()
 
 
+def other_providers(ctx, cases):
+    """another provider in the same process, configured with its own subject functions (session_params.sub_func:
+    PublicID / PairWiseID with their own salt), does not change the subs a provider hands out - neither of one that
+    already runs nor of one created afterwards"""
+    over = {"client_1": {"subject_type": "pairwise", "sector_identifier_uri": SECTORS[1]}, "client_2": {"subject_type": "public"}}
+    old_mk = srv.make_server
+
+    def mk_tenant(*a, **k):
+        k = dict(k)
+        extra = dict(k.get("extra") or {})
+        cc = srv.crypt_config()
+        extra["session_params"] = {"encrypter": cc, "sub_func": {
+            "public": {"class": "idpyoidc.server.session.manager.PublicID", "kwargs": {"salt": "tenant-salt-public"}},
+            "pairwise": {"class": "idpyoidc.server.session.manager.PairWiseID", "kwargs": {"salt": "tenant-salt-pairwise"}}}}
+        k["extra"] = extra
+        return old_mk(*a, **k)
+    plain = sess.RealSession(oidc=True, client_over=copy.deepcopy(over))
+    tenant = late = None
+    try:
+        def subs_of(rs, tag):
+            out = {}
+            for u in sess.USERS[:2]:
+                for c in ("client_1", "client_2"):
+                    o = rs.op_authz(u, c, ["openid"])
+                    if o[0] == "ok" and o[1]:
+                        out[(u, c)] = rs.grants[rs.tok_grant[o[1][0]]][1].sub
+                        rec = {"other_provider": tag, "user": u, "client": c, "sub": out[(u, c)]}
+                        ctx.case_seen(rec, True)
+                        cases.append((model_case(rs.ctx.cdb[c], u, "https://%s.example.com/cb" % c, out[(u, c)], rs.sm.get_salt()), rec))
+            return out
+        before = subs_of(plain, "plain-before")
+        srv.make_server = mk_tenant
+        try:
+            tenant = sess.RealSession(oidc=True, client_over=copy.deepcopy(over))
+        finally:
+            srv.make_server = old_mk
+        tsubs = {}
+        for u in sess.USERS[:2]:
+            o = tenant.op_authz(u, "client_2", ["openid"])
+            if o[0] == "ok" and o[1]:
+                tsubs[u] = tenant.grants[tenant.tok_grant[o[1][0]]][1].sub
+        after = subs_of(plain, "plain-after")
+        late = sess.RealSession(oidc=True, client_over=copy.deepcopy(over))
+        lsubs = subs_of(late, "late")
+        ctx.count("other-providers:logins", len(before) + len(after) + len(lsubs))
+        for k, v in before.items():
+            if after.get(k) != v:
+                ctx.violation("unstable", "the sub of %s at %s changed after another provider with its own subject functions was created in the process" % k,
+                              {"user": k[0], "client": k[1], "before": v, "after": after.get(k)})
+        for u, ts in tsubs.items():
+            if lsubs.get((u, "client_2")) == ts and before.get((u, "client_2")) != ts:
+                ctx.violation("unstable", "a provider created later hands out the subs of the differently configured provider (%s)" % u, {"user": u})
+    finally:
+        for r in (plain, tenant, late):
+            if r is not None:
+                r.close()
+
+
 def run(ctx):
     rng = ctx.rng
     source_tie(ctx)
@@ -332,6 +390,7 @@ def run(ctx):
             rs.close()
     dynamic_registration(ctx, cases)
     handover(ctx, cases)
+    other_providers(ctx, cases)
     ctx.coq_check_cases(["Lib.Base", "Lib.PyStr", "Model.Sub"], "sub_case", "chk_sub", cases, shard=60, label="sub")
 
 
